@@ -4,6 +4,7 @@ CONSTANTS
 INVARIANT FineCoding
 INVARIANT WellFormedCases
 INVARIANT ParserAgrees
+INVARIANT MissingIsInvalid
 INVARIANT ImplIffValid
 INVARIANT ImplIsFunction
 INVARIANT ImplValueNormal
